@@ -246,8 +246,10 @@ Section WithFamily.
          | TRef c => call_ref run ch c (resolve own c) v            (* late: whatever c.serialize is now *)
          | TArray (TRef c) =>
              match v with
-             | PList l => let '(ch1, f) := freeze own ch (dc, fname, c) in
-                          wrap_list (mapM_st (fun ch' x => call_ref run ch' c f x) ch1 l)
+             | PList l => if class_is_fast e c
+                          then let '(ch1, f) := freeze own ch (dc, fname, c) in
+                               wrap_list (mapM_st (fun ch' x => call_ref run ch' c f x) ch1 l)
+                          else (ch, Raise AttributeError)
              | _ => (ch, Raise Unmodelled)
              end
          | TSet (TRef c) =>
